@@ -391,9 +391,12 @@ class CompiledTemplateManager(object):
         :param tables.TableGroup table_group: The Table Group used to instantiate the Template.
         :return:
         """
+        # In-stream table definitions change what the descriptors mean without
+        # changing the table group key, hence the version of the extra entries.
         key_of_compiled_template = (
             tuple(template.original_descriptor_ids),
-            table_group.key
+            table_group.key,
+            TableGroupCacheManager.extra_entries_version()
         )
         log.debug('Getting compiled template of key: {}'.format(key_of_compiled_template))
         compiled_template = self.cache.get(key_of_compiled_template, None)
